@@ -56,6 +56,10 @@ CHECKS = {
                 technique="symbolic execution of the compiled InitRenorm / RenormAbundance / GetElementAbund / GetHNuclei + SMT (non-linear real arithmetic): with the linear solve as the constraint A(ab) r = b, element totals after renormalisation equal reference ratio x hydrogen nuclei for all ab > 0",
                 text="For networks with multi-element molecules, ions, isotopologues/ortho-para species, ice species and dust grains: z3 shows for all positive abundances and all solutions r that every element total after RenormAbundance is b_i*H, that H is preserved when b_H=1, that electrons are untouched, that GetElementAbund is the count-weighted sum, that A(ab)*1 is the current ratio vector and every factor is 1 at r=1 (identity), and that no term divides by the literal 0.0.",
                 note="The LU/SUNLinSol solve is modelled by its defining equation; nonsingular A assumed for uniqueness; real arithmetic; elements are the atomic species present (generator's definition)."),
+    "C10": dict(engine="cfgsat", cat="other", sec="6 C10",
+                technique="real compiler front end (clang++-14 name resolution) on every emitted translation unit of a configuration matrix; thorough: z3 model of the symbol registry (read from the real component classes) solved for mixtures/orders with use-before-declaration, each SAT mixture rendered and compiled",
+                text="For six formats, bundled fixtures, four format mixtures in both orders, five grain-model projects, thermal and shielding-table options on dense/sparse/rosenbrock4: every translation unit passes name resolution (no undeclared / redefined identifier); in the thorough tier all presence/order assignments of 6 reaction kinds x 5 grain models x thermal are searched by the solver for a derived quantity whose dependency is declared later or never.",
+                note="Two configuration classes are recorded known findings (UCLCHEM network without H2; hh93i without Leeds reactions). Declaration-only API shims: names, not linking. Single grain group."),
     "C11": dict(engine=E1, cat="translation_validation", sec="6 C11",
                 technique="symbolic execution of the compiled EvalRates (exact literals, libm uninterpreted) for Leeds- and UCLCHEM-format grain reactions under each dust model + SMT equivalence with independently written Hasegawa-Herbst / Roberts et al. formulae; native libm replay; unsupported (model, process) pairs must be refused",
                 text="For accretion (neutral / ion / electron), thermal, cosmic-ray, photo and H2-formation desorption, grain recombination and electron capture under hh93, hh93i, rr07, rr07x and species CO, H2O, CH4, C, H, C+, H3O+, e- (RATE12 and user-supplied binding energies and yields) z3 shows 'exists physical parameters: k[i] assigned and != law' unsat; models asked for a process they do not implement refuse at generation time.",
@@ -125,6 +129,7 @@ def main():
         "engines": [
             {"name": "irsym", "path": "vf/irsym.py", "serves_properties": [p for p, c in CHECKS.items() if c["engine"] == E1],
              "kind_free_text": "symbolic interpreter for the LLVM-14 IR of the generated C++ (clang++-14 lowering, z3 terms, bounds-checked object memory, post-dominator state merging, dual numbers)"},
+            {"name": "cfgsat", "path": "vf/checks/c10.py", "serves_properties": ["C10"], "kind_free_text": "z3 constraint model of the symbol registry + real compiler front end"},
             {"name": "chx", "path": "vf/chx", "serves_properties": [p for p, c in CHECKS.items() if c["engine"] == E2],
              "kind_free_text": "CrossHair 0.0.110 (symbolic execution of naunet's Python with z3) on generated PEP316 harnesses"},
         ],
